@@ -54,6 +54,12 @@ def xspec(spec, rng):
     xs["K"] = [rng.randrange(50) for _ in spec["rules"]]
     xs["coef"] = [[rng.randrange(1, 10) for _ in r["rhs"]] for r in spec["rules"]]
     xs["form"] = [rng.choice([0, 0, 1, 2, 3]) for _ in spec["rules"]]
+    # some rules do not assign `$$` at all: the value slot of their left-hand side is then the fresh zero value
+    xs["noassign"] = [len(spec["rules"]) > 1 and rng.random() < 0.12 for _ in spec["rules"]]
+    for i, na in enumerate(xs["noassign"]):
+        if na:
+            xs["K"][i] = 0
+            xs["coef"][i] = [0 for _ in spec["rules"][i]["rhs"]]
     return xs
 
 
@@ -77,6 +83,7 @@ def xspec_twin(spec, rng, p=0.6):
                 rules.append({"lhs": r["lhs"], "rhs": rhs, "prec": r.get("prec")})
                 K.append(xs["K"][i]); coef.append(xs["coef"][i]); form.append(xs["form"][i])
     xs["rules"], xs["K"], xs["coef"], xs["form"] = rules, K, coef, form
+    xs["noassign"] = [False] * len(rules)
     xs["log_by_param"] = True
     return xs
 
@@ -91,6 +98,9 @@ def _expr(xs, i):
 def _assign(xs, i):
     """the value assignment of rule i in one of several equivalent spellings that mention $$ once,
     twice or three times (an emitter that rewrites only some occurrences computes another value)"""
+    if xs.get("noassign") and i < len(xs["noassign"]) and xs["noassign"][i]:
+        # Go: nothing (zero value); TypeScript has no zero values: the slot is set to 0 explicitly
+        return "$$ = 0" if xs.get("_target") == "typescript" else "_ = 0"
     e = "(%s) %% %d" % (_expr(xs, i), MOD)
     form = xs.get("form", [0] * len(xs["rules"]))[i]
     if form == 1:
@@ -103,6 +113,7 @@ def _assign(xs, i):
 
 
 def render_x(xs, target, pkg, obj, trace):
+    xs = dict(xs, _target=target)
     tags = xs["tags"]
     lines = []
     if target == "go":
